@@ -40,7 +40,9 @@ def run(ctx):
     VC.run(ctx, vcfgs, vgen, n, preds=(VC.oracle_pred, VC.fault_pred), nontrivial=nontrivial, label='C14 vector relocation history')
     scfgs = [S.SetCfg('flat', cmp='less'), S.SetCfg('flat', cmp='mod', uvec='small'), S.SetCfg('flat', cmp='greater', uvec='std'),
              S.SetCfg('flat', cmp='stateful', uvec='fixed'), S.SetCfg('small', 3, 'flat', cmp='less'), S.SetCfg('small', 2, 'std', cmp='less'),
-             S.SetCfg('small', 2, 'flat', cmp='mod')]
+             S.SetCfg('small', 2, 'flat', cmp='mod'),
+             # a comparator object that is not trivially relocatable: neither set type may claim the trait
+             S.SetCfg('flat', cmp='selfref'), S.SetCfg('small', 3, 'flat', cmp='selfref')]
     def sgen(rng, cfg, k):
         return with_reloc(S.gen_history(rng, cfg, 35, dom=cfg.n + 6), rng, cfg.pool)
     SC.run(ctx, scfgs, sgen, n // 2, use_cmps=False, nontrivial=lambda c, l, o: any(x.startswith('reloc') for x in l), label='C14 set relocation history')
